@@ -9,6 +9,7 @@ import (
 	"encoding/json"
 	"fmt"
 	"strconv"
+	"strings"
 	"time"
 )
 
@@ -43,6 +44,10 @@ func init() {
 				v, err = strconv.ParseBool(w)
 			case "time.Duration":
 				v, err = time.ParseDuration(w)
+			case "tolower": // strings.ToLower / ToUpper: what the generated main and the template's `lower` apply to names
+				v, err = strings.ToLower(w), nil
+			case "toupper":
+				v, err = strings.ToUpper(w), nil
 			default:
 				return map[string]string{"error": "bad type " + q.Ty}
 			}
